@@ -20,23 +20,23 @@ type Violation struct {
 }
 
 type Result struct {
-	Property     string         `json:"property"`
-	Tier         string         `json:"tier"`
-	Seed         uint64         `json:"seed"`
-	Batch        int            `json:"batch"`
-	Env          string         `json:"env,omitempty"`
-	Evaluations  int64          `json:"evaluations"`
-	Distinct     int64          `json:"distinct"`
-	DistinctFile string         `json:"distinct_file,omitempty"`
-	Samples      []any          `json:"samples"`
-	Observed     map[string]int64 `json:"observed"`
+	Property     string            `json:"property"`
+	Tier         string            `json:"tier"`
+	Seed         uint64            `json:"seed"`
+	Batch        int               `json:"batch"`
+	Env          string            `json:"env,omitempty"`
+	Evaluations  int64             `json:"evaluations"`
+	Distinct     int64             `json:"distinct"`
+	DistinctFile string            `json:"distinct_file,omitempty"`
+	Samples      []any             `json:"samples"`
+	Observed     map[string]int64  `json:"observed"`
 	Notes        map[string]string `json:"notes,omitempty"`
-	Violations   []Violation    `json:"violations"`
-	NViolations  int64          `json:"n_violations"`
-	Inconclusive int64          `json:"inconclusive"`
-	InconclWhy   []string       `json:"inconclusive_why,omitempty"`
-	Exhaustive   bool           `json:"exhaustive"`
-	Rule         string         `json:"rule"`
+	Violations   []Violation       `json:"violations"`
+	NViolations  int64             `json:"n_violations"`
+	Inconclusive int64             `json:"inconclusive"`
+	InconclWhy   []string          `json:"inconclusive_why,omitempty"`
+	Exhaustive   bool              `json:"exhaustive"`
+	Rule         string            `json:"rule"`
 
 	mu       sync.Mutex
 	distinct map[uint64]struct{}
